@@ -145,7 +145,7 @@ def check_sqrt_correct(w, rep):
         wantC = MatVal(nx, ny, [[BR(ny + a, b) for b in range(ny)] for a in range(nx)])
         verdict(rep, "C10.sqrt-correct", "%s: W+ = B_R[n_y:, n_y:] (lower triangular)" % tag, Wp, wantW, (), Wh, "W+ is not the trailing block of the transposed triangular factor")
         verdict(rep, "C10.sqrt-correct", "%s: Ss = B_R[:n_y, :n_y]" % tag, Ss, wantS, (), Wh, "innovation factor is not the leading block")
-        verdict(rep, "C10.sqrt-correct", "%s: K = B_R[n_y:, :n_y] inv(Ss)" % tag, K, cm.matmul(wantC, cm.inv(wantS)), (), Wh, "gain is not the cross block times the inverse innovation factor")
+        verdict(rep, "C10.sqrt-correct", "%s: K = B_R[n_y:, :n_y] inv(Ss)" % tag, solve_to_inv(K), cm.matmul(wantC, cm.inv(wantS)), (), Wh, "gain is not the cross block times the inverse innovation factor")
     rep.note("lemma (Steward 98 / array square-root filter): with [[Rs, HW],[0, W]] = L Q (L lower triangular, Q orthogonal), L L^T gives Ss Ss^T = H P H^T + R, "
              "C Ss^T = P H^T hence K = C Ss^-1 = P H^T S^-1, and W+ W+^T = P - K S K^T = (I - K H) P")
 
@@ -212,6 +212,25 @@ def check_sqrt_predict(w, rep):
         w.it.summaries = saved
     rep.note("lemma: for skew X, (F W + (Q/2+X) W^-T) W^T + W (.)^T = F P + P F^T + Q with P = W W^T; X is chosen by solving the strictly-upper equations of W_dot = 0, "
              "so the exact solution makes W_dot lower triangular (the caller additionally applies tril)")
+
+
+def solve_to_inv(M):
+    """Rewrites every solve(A, B)[i, j] atom as (inv(A) @ B)[i, j] (the same mathematical object), so that a gain written
+    with a linear solve can be compared with the documented form inv(Ss)."""
+    memo = {}
+
+    def f(a):
+        if a.kind != "solve":
+            return None
+        i, j, n, m = a.key[:4]
+        args = a.key[4:]
+        k = (n, m, args)
+        if k not in memo:
+            A = MatVal(n, n, [[args[c * n + r] for c in range(n)] for r in range(n)])          # flat() is column-major
+            B = MatVal(n, m, [[args[n * n + c * n + r] for c in range(m)] for r in range(n)])
+            memo[k] = cm.matmul(cm.inv(A), B)
+        return memo[k].cells[i][j]
+    return MatVal(M.r, M.c, [[deep_subs(p, f) if p.t else p for p in row] for row in M.cells], M.kind)
 
 
 def run(w, rep, tier):
